@@ -145,6 +145,37 @@ Fixpoint block_infos (ts : list txop) (oks : list bool) (cur : binfo) : list bin
   | _, _ => []
   end.
 
+(* per block (cumulative): ids that received a successful negative-amount contribution / withdrawal so far *)
+Fixpoint neg_cum (ts : list txop) (oks : list bool) (acc : list N) : list (list N) :=
+  match ts, oks with
+  | t :: r, ok :: oks' =>
+      match t_op t with
+      | OEnd => acc :: neg_cum r oks' acc
+      | OFund id _ _ | OWithdraw id _ _ _ => neg_cum r oks' (if ok && trig_negative_amount t then id :: acc else acc)
+      | _ => neg_cum r oks' acc
+      end
+  | _, _ => []
+  end.
+
+(* per block (cumulative): ids that received a successful vote tallied with an option percentage different from
+   the proposal's own (the type and percentage of a proposal are those of its successful create operation) *)
+Fixpoint drift_cum (ts : list txop) (oks : list bool) (created : list (N * (ptype * Z))) (acc : list N) : list (list N) :=
+  match ts, oks with
+  | t :: r, ok :: oks' =>
+      match t_op t with
+      | OEnd => acc :: drift_cum r oks' created acc
+      | OCreate id ty _ _ _ _ _ pass _ => drift_cum r oks' (if ok then (id, (ty, pass)) :: created else created) acc
+      | OVote id _ _ =>
+          let d := match List.find (fun c => N.eqb c.1 id) created with
+                   | Some (_, (ty, pass)) => negb (o_pass (opts_of (t_env t) ty) =? pass)
+                   | None => false
+                   end in
+          drift_cum r oks' created (if ok && d then id :: acc else acc)
+      | _ => drift_cum r oks' created acc
+      end
+  | _, _ => []
+  end.
+
 Definition has_survivors (p : pobs) : bool := existsb (fun v => 0 <=? v) (ob_indiv p).
 
 (* violations on one proposal between two consecutive block-end observations [a] (before) and [b];
@@ -192,12 +223,16 @@ Fixpoint newly_finalized (a b : list (option pobs)) : Z :=
   end.
 
 (* class of a violation: 0 = unexplained;
-   1 = C14.public_expire_votes: code 5 and a public EXPIRE_VOTES succeeded on this id in this block;
+   (class 1 was C14.public_expire_votes, fixed by /repo 0988205: an early expiry is now always unexplained)
    2 = C14.stale_fund_records: code 10 at the block of finalisation when another proposal was finalised in the
        same block or every surviving record was contributed in this block; code 2 / 1 on a finalised proposal
-       that has surviving records (a zero withdrawal copies it into the failed store) *)
-Definition classify (code : Z) (i : Z) (bi : binfo) (nfin : Z) (pa pb : option pobs) : Z :=
-  if (code =? 5) && bool_decide (Z.to_N i ∈ bi_exp bi) then 1
+       that has surviving records (a zero withdrawal copies it into the failed store);
+   3 = C14.negative_fund_amount: code 3 on a proposal that received a successful negative contribution / withdrawal;
+   4 = C14.pass_percentage_drift: code 2 / 12 on a proposal that received a vote tallied with an option percentage
+       different from its own *)
+Definition classify (code : Z) (i : Z) (bi : binfo) (neg drift : list N) (nfin : Z) (pa pb : option pobs) : Z :=
+  if (code =? 3) && bool_decide (Z.to_N i ∈ neg) then 3
+  else if ((code =? 2) || (code =? 12)) && bool_decide (Z.to_N i ∈ drift) then 4
   else if (code =? 10) && negb (rank_obs pa =? 4) then
     match pb with
     | Some p =>
@@ -214,29 +249,39 @@ Definition classify (code : Z) (i : Z) (bi : binfo) (nfin : Z) (pa pb : option p
     end
   else 0.
 
-Fixpoint props_viol (bi : Z) (h : Z) (i : Z) (info : binfo) (nfin : Z) (a b : list (option pobs)) : list Z :=
+Fixpoint props_viol (bi : Z) (h : Z) (i : Z) (info : binfo) (neg drift : list N) (nfin : Z) (a b : list (option pobs)) : list Z :=
   match b with
   | [] => []
   | pb :: b' =>
       let pa := match a with x :: _ => x | [] => None end in
       let a' := match a with _ :: r => r | [] => [] end in
-      flat_map (fun code => [bi; i; code; classify code i info nfin pa pb]) (prop_viol h pa pb)
-      ++ props_viol bi h (i + 1) info nfin a' b'
+      flat_map (fun code => [bi; i; code; classify code i info neg drift nfin pa pb]) (prop_viol h pa pb)
+      ++ props_viol bi h (i + 1) info neg drift nfin a' b'
   end.
 
-Fixpoint obs_viol (bi : Z) (prev : sobs) (obs : list sobs) (infos : list binfo) : list Z :=
+Fixpoint obs_viol (bi : Z) (prev : sobs) (obs : list sobs) (infos : list binfo) (negs drifts : list (list N)) : list Z :=
   match obs with
   | [] => []
   | b :: r =>
       let info := match infos with p :: _ => p | [] => bi_empty end in
-      props_viol bi (ob_h b) 0 info (newly_finalized (ob_props prev) (ob_props b)) (ob_props prev) (ob_props b) ++
+      let drift := match drifts with n :: _ => n | [] => [] end in
+      props_viol bi (ob_h b) 0 info (match negs with n :: _ => n | [] => [] end) drift (newly_finalized (ob_props prev) (ob_props b)) (ob_props prev) (ob_props b) ++
       (if wealth b <=? wealth prev then [] else [bi; -1; 9; 0]) ++     (* 9: value appeared *)
-      obs_viol (bi + 1) b r (match infos with _ :: p => p | [] => [] end)
+      (* 12: a configuration update came into force whose proposal is not recorded as passed (outcome completedYes) *)
+      (if ob_applied b =? ob_applied prev then []
+       else let i := ob_applied b in
+            match nth_error (ob_props b) (Z.to_nat i) with
+            | Some (Some pb) => if ob_outcome pb =? 5 then [] else [bi; i; 12; classify 12 i info [] drift 0 None (Some pb)]
+            | _ => [bi; i; 12; 0]
+            end) ++
+      obs_viol (bi + 1) b r (match infos with _ :: p => p | [] => [] end) (match negs with _ :: n => n | [] => [] end)
+                (match drifts with _ :: n => n | [] => [] end)
   end.
 
 Definition case_monitor (ci : Z) (c : gcase) : list Z :=
   let s0 := mkSO 0 (map (fun _ => None) (idx (c_np c))) (c_init c) (c_pool c) false (-1) in
-  let v := obs_viol 0 s0 (c_obs c) (block_infos (c_ops c) (c_ok c) bi_empty) in
+  let v := obs_viol 0 s0 (c_obs c) (block_infos (c_ops c) (c_ok c) bi_empty)
+                    (neg_cum (c_ops c) (c_ok c) []) (drift_cum (c_ops c) (c_ok c) [] []) in
   (* flatten to (case, block, proposal, code, class) *)
   (fix go (l : list Z) : list Z :=
      match l with
